@@ -137,7 +137,7 @@ def r_case(c):
 class C04(Check):
     ID = "C04"
     SHARD = 12
-    N_QUICK = 110
+    N_QUICK = 100
     N_THOROUGH = 1000
     RULE = ("2 systematic histories (every operation once, with and without a secret taproot script, conversion, reopen, "
             "operations on the watching-only manager) + wallet-level runs (wallet.Create / Open / Unlock / NewAddress / imports / "
@@ -179,7 +179,10 @@ class C04(Check):
 
     def shrink(self, case, kind):
         """greedy removal of operations (never the first) while the harness still reports the same kind"""
-        best, budget = case, 45
+        self._shrinks = getattr(self, "_shrinks", 0) + 1
+        if self._shrinks > 2:
+            return case
+        best, budget = case, 30
         i = len(case["in"]["ops"]) - 1
         wd = os.path.join(WORK, self.ID)
         os.makedirs(wd, exist_ok=True)
